@@ -88,3 +88,115 @@ func tableLiteral(c *Ctx, info *types.Info, e ast.Expr) *tableLit {
 	}
 	return nil
 }
+
+// arrayTable: a package-level array or slice literal of struct literals, decided read-only: T[k] for a constant k is
+// the k-th element literal, and T[k].f the expression written for field f there.
+type arrayTable struct {
+	v     *types.Var
+	info  *types.Info
+	elems map[int64]*ast.CompositeLit
+}
+
+var arrayTableCache = map[*types.Var]*arrayTable{}
+
+func arrayTableOf(c *Ctx, info *types.Info, e ast.Expr) *arrayTable {
+	id := identOf(e)
+	if id == nil {
+		return nil
+	}
+	v, ok := info.Uses[id].(*types.Var)
+	if !ok || v.Pkg() == nil || v.Parent() != v.Pkg().Scope() {
+		return nil
+	}
+	if t, ok := arrayTableCache[v]; ok {
+		return t
+	}
+	arrayTableCache[v] = nil
+	var elemT types.Type
+	switch t := v.Type().Underlying().(type) {
+	case *types.Array:
+		elemT = t.Elem()
+	case *types.Slice:
+		elemT = t.Elem()
+	default:
+		return nil
+	}
+	if _, isStruct := elemT.Underlying().(*types.Struct); !isStruct {
+		return nil
+	}
+	p := c.Pkgs[v.Pkg().Path()]
+	if p == nil {
+		return nil
+	}
+	if ro, _ := readOnlyTable(c, v); !ro {
+		return nil
+	}
+	for _, f := range c.Files(p) {
+		for _, d := range f.Decls {
+			gd, ok := d.(*ast.GenDecl)
+			if !ok {
+				continue
+			}
+			for _, sp := range gd.Specs {
+				vs, ok := sp.(*ast.ValueSpec)
+				if !ok {
+					continue
+				}
+				for i, nm := range vs.Names {
+					if p.TypesInfo.Defs[nm] != types.Object(v) || i >= len(vs.Values) {
+						continue
+					}
+					cl, ok := unparen(vs.Values[i]).(*ast.CompositeLit)
+					if !ok {
+						return nil
+					}
+					t := &arrayTable{v: v, info: p.TypesInfo, elems: map[int64]*ast.CompositeLit{}}
+					next := int64(0)
+					for _, el := range cl.Elts {
+						val := el
+						if kv, ok := el.(*ast.KeyValueExpr); ok {
+							k, ok := constInt(p.TypesInfo, kv.Key)
+							if !ok {
+								return nil
+							}
+							next, val = k, kv.Value
+						}
+						ecl, ok := unparen(val).(*ast.CompositeLit)
+						if !ok {
+							return nil
+						}
+						t.elems[next] = ecl
+						next++
+					}
+					arrayTableCache[v] = t
+					return t
+				}
+			}
+		}
+	}
+	return nil
+}
+
+// fieldOfElem: the expression written for the named field in a struct literal (keyed or positional).
+func fieldOfElem(info *types.Info, cl *ast.CompositeLit, field string) ast.Expr {
+	tv, ok := info.Types[cl]
+	if !ok {
+		return nil
+	}
+	st, ok := tv.Type.Underlying().(*types.Struct)
+	if !ok {
+		return nil
+	}
+	for i, el := range cl.Elts {
+		if kv, ok := el.(*ast.KeyValueExpr); ok {
+			if id := identOf(kv.Key); id != nil && id.Name == field {
+				return kv.Value
+			}
+			continue
+		}
+		if i < st.NumFields() && st.Field(i).Name() == field {
+			return el
+		}
+	}
+	return nil
+}
